@@ -66,6 +66,7 @@ def run(repo, rep, tier):
     results_are_stamped_on_copies(repo, rep)
     # the Open/Pull variants can be continued: each Open registers its
     # context under the pull kind DSP0200 pairs it with
+    shadow_writes_follow_all_checks(repo, rep)
     from .c14 import pull_kinds_rule
     pull_kinds_rule(repo, rep, rep.rule(
         'C13.R12', 'an Open...() result can be continued by its Pull '
@@ -170,8 +171,10 @@ def run(repo, rep, tier):
             raise AnalysisError('MainProvider.%s/%s vanished' % (on, tn))
         r1.sites += 1
         r1.functions.add(of.fq)
-        calls = [n for n in walk_no_nested(of.node) if isinstance(n, ast.Call)
-                 and dotted(n.func) == 'self.' + tn]
+        from ..inline import Flat as _Flat
+        off = _Flat(of, keep=(tn,), aliases=True)
+        calls = [n for n in walk_no_nested(off.node)
+                 if isinstance(n, ast.Call) and dotted(n.func) == 'self.' + tn]
         ok = len(calls) == 1
         r1.ob(ok, on + '->' + tn)
         if not ok:
@@ -181,12 +184,8 @@ def run(repo, rep, tier):
             continue
         c = calls[0]
         tparams = [p for p in tf.params if p != 'self']
-        passed = {}
-        for i, x in enumerate(c.args):
-            if i < len(tparams):
-                passed[tparams[i]] = x
-        for k in c.keywords:
-            passed[k.arg] = k.value
+        from ..model import call_arguments
+        passed, _rest = call_arguments(off.node, c, tparams)
         for p in tparams:
             if p in of.params:
                 x = passed.get(p)
@@ -732,7 +731,10 @@ def adapters_forward_every_filter(repo, rep, rid='C13.R7',
         pm = mp.find_method(op)
         if pm is None:
             raise AnalysisError('MainProvider.%s vanished' % op)
-        calls = [c for c in walk_no_nested(f.node) if isinstance(c, ast.Call)
+        from ..inline import Flat as _Flat
+        from ..model import call_arguments
+        ff = _Flat(f, aliases=True)
+        calls = [c for c in walk_no_nested(ff.node) if isinstance(c, ast.Call)
                  and (dotted(c.func) or '').endswith('.' + op)]
         r7.sites += 1
         r7.functions.add(f.fq)
@@ -744,8 +746,9 @@ def adapters_forward_every_filter(repo, rep, rid='C13.R7',
             continue
         c = calls[0]
         ps = [p for p in pm.params if p != 'self']
-        passed = set(ps[:len(c.args)]) | {k.arg for k in c.keywords if k.arg}
-        star = any(k.arg is None for k in c.keywords)
+        given, rest = call_arguments(ff.node, c, ps, f)
+        passed = set(given)
+        star = bool(rest)
         missing = [] if star else [p for p in ps if p not in passed]
         r7.ob(not missing, n, {'passed': sorted(passed)})
         if missing:
@@ -758,6 +761,53 @@ def adapters_forward_every_filter(repo, rep, rid='C13.R7',
                         % (', '.join(missing), op))
     if r7.sites < floor:
         raise AnalysisError('%s: only %d adapters' % (rid, r7.sites))
+
+
+def shadow_writes_follow_all_checks(repo, rep):
+    """C13.R13: a cross-namespace association is stored as one instance per
+    participating namespace (the shadow copies that make the traversal
+    symmetric).  The loop that stores them refuses nothing: every check
+    (class exists, path can be built, instance does not exist yet) has run
+    for *all* namespaces before the first copy is stored.  A loop that
+    checks and stores per namespace leaves the copies of the namespaces
+    visited before the refusal behind - y is then associated with x (the
+    orphan shadow) while x is not associated with y."""
+    IWPF = 'pywbem_mock/_instancewriteprovider.py'
+    r13 = rep.rule('C13.R13', 'the loop that stores the per-namespace copies '
+                   'of an association refuses nothing')
+    cls = repo.cls(IWPF, 'InstanceWriteProvider')
+    n = 0
+    from ..inline import Flat
+    for f in cls.methods.values():
+        ff = Flat(f, keep=('add_new_instance',))
+        for lp in walk_no_nested(ff.node):
+            if not isinstance(lp, (ast.For, ast.While)):
+                continue
+            writes_ = [c for c in ast.walk(lp) if isinstance(c, ast.Call) and
+                       isinstance(c.func, ast.Attribute) and (
+                           (c.func.attr in ('create', 'update') and
+                            norm(c.func.value).endswith('_store')) or
+                           dotted(c.func) == 'self.add_new_instance')]
+            if not writes_:
+                continue
+            n += 1
+            r13.sites += 1
+            r13.functions.add(f.fq)
+            raises = [x for s_ in lp.body for x in ast.walk(s_)
+                      if isinstance(x, ast.Raise)]
+            r13.ob(not raises, '%s|%s' % (f.qualname, norm(lp, 40)))
+            for x in raises[:1]:
+                rep.finding(r13, f.qualname, norm(writes_[0], 50),
+                            'check-inside-write-loop', IWPF, x.lineno,
+                            'the loop that stores one copy per namespace '
+                            'also raises (%s): when a later namespace is '
+                            'refused, the copies stored for the earlier '
+                            'ones stay - an orphan shadow instance that '
+                            'makes the traversal asymmetric'
+                            % norm(x, 60))
+    if n < 1:
+        raise AnalysisError('C13.R13: the loop that stores the '
+                            'per-namespace copies was not found')
 
 
 def results_are_stamped_on_copies(repo, rep):
